@@ -1,5 +1,5 @@
 """Numeric stage: check steps recorded from the real code against the TLA+ operators at P = 10^18 with Apalache."""
-import os, re, shutil, subprocess, time
+import os, random, re, shutil, subprocess, time
 
 VERIF = os.path.dirname(os.path.dirname(os.path.abspath(__file__)))
 SPEC = os.path.join(VERIF, "spec")
@@ -36,11 +36,15 @@ def check_vesting(workdir, nres, chunk=20, limit=300, timeout=600):
             return xs
         k = len(xs) / float(n)
         return [xs[int(i * k)] for i in range(n)]
-    nsend = max(5, limit // 6)
+    nsend = max(8, limit // 4)
     lifted = stride([s for s in splits if s["source"] == "lifted"], (limit - nsend) // 3)
     others = stride([s for s in splits if s["source"] != "lifted"], limit - nsend - len(lifted))
     splits = lifted + others
-    sends = stride(nres.get("sends") or [], nsend)
+    # (the recorder cycles through classes of free fractions: a fixed stride would alias with the cycle)
+    allsends = list(nres.get("sends") or [])
+    random.Random(len(allsends)).shuffle(allsends)
+    generic = [x for x in allsends if x["free"] not in ("0", "1" + "0" * 18)]
+    sends = (generic[:max(0, nsend - 2)] + [x for x in allsends if x not in generic][:2]) or allsends[:nsend]
     rels = []
     for s in splits:
         rels.append(("split", s, "VM!SplitOVq(%s, 0, %d, %d, %s, FALSE) = %s" % (s["ov"], s["y"], s["x"], s["u"], s["ov_new"])))
